@@ -154,7 +154,8 @@ std::shared_ptr<IFeature> BaseTagHDF5::getFeature(const std::string &name_or_id)
                 H5Group gr = g->openGroup(g->objectName(i), false);
                 std::shared_ptr<FeatureHDF5> feat = std::make_shared<FeatureHDF5>(file(), block(), gr);
                 std::shared_ptr<base::IDataArray> da = feat->data();
-                if (da->name() == name_or_id || da->id() == name_or_id) {
+                // a feature whose data array was deleted has no data: skip it
+                if (da && (da->name() == name_or_id || da->id() == name_or_id)) {
                     feature = std::make_shared<FeatureHDF5>(file(), block(), gr);
                     break;
                 }
